@@ -722,7 +722,20 @@ def _derive_one(x, method: str, args):
     if method == "with_operation":
         if not isinstance(x, cirq.Moment):
             raise NotApplicable
-        return x.with_operation(cirq.X(cirq.NamedQubit("extra")))
+        q = cirq.NamedQubit("extra")
+        kind = args[0] if args else "x"
+        if kind == "measure":
+            op = cirq.measure(q, key="mx")
+        elif kind == "controlled":
+            op = cirq.X(q).with_classical_controls("m", cirq.KeyCondition(cirq.MeasurementKey("k"), 0))
+        elif kind == "feedforward":
+            # one operation that carries BOTH measurement keys and control keys
+            op = cirq.CircuitOperation(cirq.FrozenCircuit(
+                cirq.measure(q, key="mx"), cirq.X(q).with_classical_controls("mx"),
+                cirq.Z(q).with_classical_controls("m")))
+        else:
+            op = cirq.X(q)
+        return x.with_operation(op)
     if method == "repeat":
         if not isinstance(x, cirq.CircuitOperation):
             raise NotApplicable
